@@ -517,9 +517,12 @@ def call_np(it, name, pos, kw):
             lo, hi = 0.0, 1.0
             size = tuple(pos) if name == "random.rand" else (pos[0] if pos else kw.get("size"))
         tag = "numpy:random.uniform/rand draw any reals in the half-open interval [low, high)"
+        lo_r, hi_r = T.tz(T.as_real(lo)), T.tz(T.as_real(hi))
+        # NumPy does not reject low >= high (degenerate or reversed interval): stay consistent there
+        inside = lambda u_: z3.And(z3.If(lo_r <= hi_r, lo_r, hi_r) <= u_, u_ <= z3.If(lo_r <= hi_r, hi_r, lo_r), z3.Implies(lo_r < hi_r, u_ < hi_r))
         if size is None:
             u = T.fresh_real("u")
-            ctx.assume(T.And(T.le(T.as_real(lo), u), T.lt(u, T.as_real(hi))), trusted=tag)
+            ctx.assume(inside(u), trusted=tag)
             return u
         shp = N._shape_arg(ctx, size)
         for d_ in shp:
@@ -527,7 +530,7 @@ def call_np(it, name, pos, kw):
                 raise PyRaise("ValueError", "negative dimensions are not allowed", ctx.cur_line)
         U = Arr.fresh("unif", shp, "real")
         qs = [T.fresh_int("q") for _ in shp]
-        ctx.assume(T.ForAll(qs, z3.And(T.tz(T.le(T.as_real(lo), U.fn(*qs))), T.tz(T.lt(U.fn(*qs), T.as_real(hi)))), [U.fn(*qs)]), trusted=tag)
+        ctx.assume(T.ForAll(qs, inside(T.tz(U.fn(*qs))), [U.fn(*qs)]), trusted=tag)
         return U
     if name == "random.choice":
         n = pos[0]
